@@ -198,6 +198,30 @@ func buildAPICalls(seed int64) []apiCall {
 		}
 		imgs[fmt.Sprintf("repetitive%d-400x300", kind)] = p
 	}
+	// alpha planes on which several prediction filters of the alpha encoder give exactly the same size (a function of
+	// x+y, a horizontal ramp, a vertical ramp, noise that no filter compresses): the choice among ties must not depend
+	// on timing
+	for _, kind := range []string{"diag", "hramp", "vramp", "noise"} {
+		p := image.NewNRGBA(image.Rect(0, 0, 100, 60))
+		for y := 0; y < 60; y++ {
+			for x := 0; x < 100; x++ {
+				a := 0
+				switch kind {
+				case "diag":
+					a = (x + y) * 255 / 158
+				case "hramp":
+					a = x * 255 / 99
+				case "vramp":
+					a = y * 255 / 59
+				default:
+					a = rng.Intn(256)
+				}
+				i := p.PixOffset(x, y)
+				p.Pix[i], p.Pix[i+1], p.Pix[i+2], p.Pix[i+3] = uint8(x*2), uint8(y*3), 90, uint8(a)
+			}
+		}
+		imgs["alpha-"+kind+"-100x60"] = p
+	}
 	var calls []apiCall
 	files := map[string][]byte{}
 	addEnc := func(name, im string, o webp.EncoderOptions) {
@@ -227,6 +251,10 @@ func buildAPICalls(seed int64) []apiCall {
 	addEnc("lossy-alpha-400x300", "400x300-alpha", webp.EncoderOptions{Quality: 50, Method: 1})
 	addEnc("lossless-repetitive0-q95", "repetitive0-400x300", webp.EncoderOptions{Lossless: true, Quality: 95, Method: 4})
 	addEnc("lossless-repetitive2-q100", "repetitive2-400x300", webp.EncoderOptions{Lossless: true, Quality: 100, Method: 3})
+	for _, kind := range []string{"diag", "hramp", "vramp", "noise"} {
+		addEnc("lossy-alpha-"+kind+"-best-filter", "alpha-"+kind+"-100x60", webp.EncoderOptions{Quality: 50, Method: 3, AlphaFiltering: 2})
+		addEnc("lossy-alpha-"+kind+"-best-filter-m6", "alpha-"+kind+"-100x60", webp.EncoderOptions{Quality: 50, Method: 6, AlphaFiltering: 2, AlphaQuality: 80})
+	}
 	// extended-container output (metadata, alpha) with call-specific blobs: the writer yields inside Write, so
 	// several Encode calls are between "file assembled" and "file written" at the same time
 	blob := func(tag byte, n int) []byte {
@@ -474,6 +502,96 @@ func runAfterFailures(seed int64, rounds int, report func(key, msg string), eval
 	eval(fmt.Sprintf("after-failures x%d", rounds))
 }
 
+// runParallelFrames: parallel frame decoding (Animation.DecodeFramesParallel) of animations in which 0..all frames
+// carry a damaged bitstream, under several GOMAXPROCS values: the call must return (no deadlock, whatever the number of
+// failing frames relative to the number of workers), report an error exactly when a frame fails, and give every
+// undamaged frame the image a decode of the intact animation gives it.
+func runParallelFrames(seed int64, thorough bool, report func(key, msg string), eval func(sig string)) {
+	rng := rand.New(rand.NewSource(seed))
+	old := runtime.GOMAXPROCS(0)
+	defer runtime.GOMAXPROCS(old)
+	for _, nf := range []int{3, 6, 12, 40} {
+		if nf == 40 && !thorough {
+			nf = 20
+		}
+		var buf bytes.Buffer
+		e := animation.NewEncoder(&buf, 24, 20, &animation.EncodeOptions{Lossless: true, Quality: 50, Kmin: 3, Kmax: 5})
+		for i := 0; i < nf; i++ {
+			if err := e.AddFrame(noiseNRGBA(rng, 24, 20, i%3), 20*time.Millisecond); err != nil {
+				report("parallel-frames|setup", err.Error())
+				return
+			}
+		}
+		if err := e.Close(); err != nil {
+			report("parallel-frames|setup", err.Error())
+			return
+		}
+		ref, err := animation.DecodeBytes(buf.Bytes())
+		if err != nil || ref.DecodeFrames() != nil || len(ref.Frames) != nf {
+			report("parallel-frames|setup", fmt.Sprintf("reference decode of a %d-frame animation: %v", nf, err))
+			return
+		}
+		want := make([]string, nf)
+		for i := range ref.Frames {
+			want[i] = digestImage(ref.Frames[i].Image)
+		}
+		for _, procs := range []int{1, 2, 4, 16} {
+			runtime.GOMAXPROCS(procs)
+			workers := procs
+			if workers > nf {
+				workers = nf
+			}
+			for _, bad := range []int{0, 1, workers - 1, workers, workers + 1, nf} {
+				if bad < 0 || bad > nf {
+					continue
+				}
+				a, err := animation.DecodeBytes(buf.Bytes())
+				if err != nil {
+					report("parallel-frames|setup", err.Error())
+					return
+				}
+				damaged := map[int]bool{}
+				for _, i := range rng.Perm(nf)[:bad] {
+					damaged[i] = true
+					d := a.Frames[i].BitstreamData
+					a.Frames[i].BitstreamData = append([]byte(nil), d[:len(d)/2]...)
+				}
+				sig := fmt.Sprintf("parallel-frames frames=%d GOMAXPROCS=%d damaged=%d", nf, procs, bad)
+				done := make(chan struct{})
+				var perr error
+				var pan any
+				start := procCPU(os.Getpid())
+				go func() {
+					defer close(done)
+					defer func() { pan = recover() }()
+					perr = a.DecodeFramesParallel()
+				}()
+				eval(sig)
+				if v := hangVerdict(done, start, 20*time.Second); v != "finished" {
+					report("deadlock|parallel-frame-decoding", fmt.Sprintf("%s: DecodeFramesParallel does not return (%s)", sig, v))
+					return // the blocked goroutines stay behind: stop this stage
+				}
+				if pan != nil {
+					report("panic|parallel-frame-decoding", fmt.Sprintf("%s: %v", sig, pan))
+					continue
+				}
+				if (perr != nil) != (bad > 0) {
+					report("result|parallel-frame-decoding", fmt.Sprintf("%s: DecodeFramesParallel returns %v", sig, perr))
+				}
+				for i := range a.Frames {
+					if damaged[i] {
+						continue
+					}
+					if a.Frames[i].Image == nil || digestImage(a.Frames[i].Image) != want[i] {
+						report("result|parallel-frame-decoding", fmt.Sprintf("%s: undamaged frame %d does not get the image of the intact animation", sig, i))
+						break
+					}
+				}
+			}
+		}
+	}
+}
+
 // runConcurrentPrograms runs k goroutines x sequences of calls and compares every result with the solo result.
 func runConcurrentPrograms(seed int64, rounds, k, seqLen int, report func(key, msg string), eval func(sig string)) {
 	calls := buildAPICalls(seed)
@@ -645,6 +763,7 @@ func checkC10(args []string) {
 	verifhook.Stop()
 	runWriterOverlap(run.Seed, run.Pick(4, 30), func(key, msg string) { run.Violate(key, msg, key) }, func(sig string) { run.Eval("prog:" + sig) })
 	runAfterFailures(run.Seed, run.Pick(12, 80), func(key, msg string) { run.Violate(key, msg, key) }, func(sig string) { run.Eval("prog:" + sig) })
+	runParallelFrames(run.Seed, run.Thorough(), func(key, msg string) { run.Violate(key, msg, key) }, func(sig string) { run.Eval(sig) })
 	// the same alphabet with the caller delayed right after every pool Put (hook PoolPut): an object that is still
 	// used after its release is now in other goroutines' hands while that use goes on
 	verifhook.Start(run.Seed+1, map[string]int{"pool_put": 70, "*": 3})
